@@ -128,7 +128,8 @@ def encode_order(rng, cls):
         j = 1 + rng.randrange(n - 2)
         d = rng.choice([-0.5, 0.5, -0.25])
         if rng.random() < 0.5:
-            return {"ranks": [(c + d if c == j else c) + rng.choice([0, 1]) for c in cls]}, "gapless"
+            shift = rng.choice([0, 1])      # once for the whole vector: the map has to stay increasing
+            return {"ranks": [(c + d if c == j else c) + shift for c in cls]}, "gapless"
         return {"scores": [(n - c + d if c == j else n - c) for c in cls]}, "gapless"
     if style == "bigint" and rng.random() < 0.3:
         if rng.random() < 0.5:
@@ -216,6 +217,23 @@ def pollute(sess, rng, kind, params, gname, vals, ops, okw=None):
             sess.predict(op, other, teams)
 
 
+def warm_up(sess, rng, mh, beta):
+    """Earlier use of the *same* instance - another game, other per-call options, another encoding of the outcome:
+    what a call returns may depend only on its own arguments and on the configuration of the model."""
+    shape = pick_shape(rng, 5, 3)
+    kw = {}
+    if rng.random() < 0.6:
+        kw["tau"] = beta * rng.choice([0.3, 1.0, 2.0])
+    if rng.random() < 0.5:
+        kw["limit_sigma"] = not mh.m.limit_sigma
+    teams = build_teams(rng, mh, shape, beta, kw.get("tau", mh.m.tau) > 0)
+    okw, _style = encode_order(rng, weak_order(rng, len(shape)))
+    kw.update(okw)
+    sess.rate(mh, teams, **kw)
+    if rng.random() < 0.5:
+        sess.predict(rng.choice(["win", "draw", "rank"]), mh, teams)
+
+
 def rate_campaign(sess, rng, count, kinds=KINDS, max_teams=8, max_players=8, simple=False):
     """count independent random rate calls, one trace each."""
     for _ in range(count):
@@ -223,6 +241,9 @@ def rate_campaign(sess, rng, count, kinds=KINDS, max_teams=8, max_players=8, sim
         params, g, beta = pick_model_params(rng, kind, simple)
         sess.reset()
         mh = sess.model(kind, gamma=g, **params)
+        warmed = rng.random() < 0.25
+        if warmed:
+            warm_up(sess, rng, mh, beta)
         kw = {}
         if rng.random() < 0.25:
             kw["tau"] = rng.choice([0, 0.0, beta * 1e-6, beta / 50.0, beta * rng.random(), beta])
@@ -248,6 +269,8 @@ def rate_campaign(sess, rng, count, kinds=KINDS, max_teams=8, max_players=8, sim
                 for p in t:
                     p.id = "feedfacefeedfacefeedfacefeedface"
         okw, _style = encode_order(rng, weak_order(rng, len(shape)))
+        if warmed and rng.random() < 0.4:
+            okw = {}        # after a game with an explicit outcome, one in the order given
         kw.update(okw)
         sess.rate(mh, teams, **kw)
 
@@ -320,10 +343,17 @@ def extremes_campaign(sess, rng, count, kinds=KINDS, ops=("rate", "win", "draw",
                 continue
             sess.predict(op, mh, teams)
         if "rate" in ops:
+            kw = {}
+            if tau == 0.0 and rng.random() < 0.5:
+                # the model has no dynamics of its own, the call brings them: a team without any uncertainty is then in the domain
+                kw["tau"] = beta * rng.choice([0.02, 1.0])
+                if rng.random() < 0.7:
+                    for p in rng.choice(teams):
+                        sess.assign(p, p.mu, 0.0)
             if rng.random() < 0.5:
-                sess.rate(mh, teams, ranks=ranks)
+                sess.rate(mh, teams, ranks=ranks, **kw)
             else:
-                sess.rate(mh, teams, scores=[-r for r in ranks])
+                sess.rate(mh, teams, scores=[-r for r in ranks], **kw)
 
 
 def predict_campaign(sess, rng, count, kinds=KINDS, max_teams=8, max_players=8):
@@ -354,6 +384,8 @@ def predict_campaign(sess, rng, count, kinds=KINDS, max_teams=8, max_players=8):
                         teams[i] = [mh.m.rating(p.mu, p.sigma) for p in src]
         if rng.random() < 0.3:
             pollute(sess, rng, kind, params, g, [[(p.mu, p.sigma) for p in t] for t in teams], ("win", "draw", "rank"))
+        if rng.random() < 0.2:
+            warm_up(sess, rng, mh, beta)
         if rng.random() < 0.15:
             for t in teams:
                 for p in t:
@@ -495,6 +527,8 @@ def perm_groups(sess, rng, count, prop, ops=("rate",), kinds=KINDS, max_teams=6,
     for _ in range(count):
         kind = rng.choice(kinds)
         params, g, beta = pick_model_params(rng, kind, simple=rng.random() < 0.5)
+        if rng.random() < 0.25:
+            g = "probe"          # a callback that weighs each of its six arguments
         sess.reset()
         mh = sess.model(kind, gamma=g, **params)
         shape = pick_shape(rng, max_teams, 3)
@@ -629,8 +663,8 @@ def scale_groups(sess, rng, count, kinds=KINDS):
         kind = rng.choice(kinds)
         sess.reset()
         beta = BETA0
-        tau = rng.choice([0.0, beta / 50.0, beta / 3.0])
-        lim = rng.random() < 0.3
+        tau = rng.choice([0.0, beta / 50.0, beta / 3.0, beta * 1e-3, beta * 1e-4, beta * 1e-5])
+        lim = rng.random() < 0.4
         g = rng.choice(["default", "default", "one", "big", "zero"])
         base = sess.model(kind, gamma=g, tau=tau, limit_sigma=lim)
         equal = rng.random() < 0.6
@@ -951,6 +985,9 @@ def object_campaign(sess, rng, count, kinds=KINDS):
         # a stored snapshot of a player (same id) beside the live player whose values have moved on
         snap = sess.deepcopy(pool[5])
         sess.assign(pool[5], pool[5].mu + 1.5, pool[5].sigma * 0.5 + 0.25)
+        for cop in ("eq", "ne", "le", "lt"):
+            sess.compare(cop, pool[5], snap)          # same id, different values
+            sess.compare(cop, snap, pool[5])
         sess.deepcopy([[pool[5]], [snap]])
         sess.deepcopy([snap, pool[5], [pool[5], snap]])
         # the same comparisons on every class (C19: the five classes compare by the same rules)
@@ -1023,8 +1060,14 @@ def restore_groups(sess, rng, count, kinds=KINDS, games=6):
                 g2 = GID.new("C20", "mirror")
                 a_live = [[_copy.deepcopy(live[i]) for i in split[0]]]
                 mirror = a_live + _copy.deepcopy(a_live)
+                if rng.random() < 0.7:          # the snapshot and its twin have drifted apart (same ids, other values)
+                    for p in mirror[1]:
+                        sess.assign(p, p.mu + rng.choice([-1.0, 0.5]) * beta, p.sigma * rng.choice([0.25, 0.5, 2.0]))
                 rebuilt = [[mh.m.create_rating([p.mu, p.sigma]) for p in t] for t in mirror]
                 mk, _ = encode_order(rng, weak_order(rng, 2))
+                if rng.random() < 0.6:
+                    mk["limit_sigma"] = True
+                    mk["tau"] = beta * rng.choice([0.5, 1.0])
                 sess.rate(mh, rebuilt, group=g2, role="base", **mk)
                 sess.rate(mh, mirror, group=g2, role="same", **mk)
             if op == "rate":
@@ -1111,9 +1154,14 @@ def malformed_campaign(sess, rng, count, kinds=KINDS, ops=("rate", "win", "draw"
                     else:
                         sess.predict(op, mh, t2)
             # structural: too few teams, an empty team
-            for variant in ["one_team", "no_team", "empty_team", "empty_first"]:
+            for variant in ["one_team", "no_team", "empty_team", "empty_first", "empty_then_tuple", "tuple_then_empty", "empty_then_none_mid",
+                            "empty_then_foreign", "foreign_then_empty"]:
                 mh, fm, teams = fresh()
-                t2 = {"one_team": teams[:1], "no_team": [], "empty_team": teams[:-1] + [[]], "empty_first": [[]] + teams[1:]}[variant]
+                t2 = {"one_team": teams[:1], "no_team": [], "empty_team": teams[:-1] + [[]], "empty_first": [[]] + teams[1:],
+                      "empty_then_tuple": [[], tuple(teams[1])] + teams[2:], "tuple_then_empty": [tuple(teams[0]), []] + teams[2:],
+                      "empty_then_none_mid": [teams[0], [], None] + teams[1:],
+                      "empty_then_foreign": [[], [fm.m.rating(20.0, 5.0)]] + teams[2:],
+                      "foreign_then_empty": [[fm.m.rating(20.0, 5.0)], []] + teams[2:]}[variant]
                 if op == "rate":
                     sess.rate(mh, t2)
                 else:
@@ -1163,6 +1211,70 @@ def malformed_campaign(sess, rng, count, kinds=KINDS, ops=("rate", "win", "draw"
                     kw = {sel: [(i if i % 2 else float(i)) for i in range(n)]}
                 sess.rate(mh, teams, **kw)
         # malformed per-call options are not part of C13 (tau / limit_sigma are not validated by the library)
+
+
+def damaged_in_place(sess, rng, kinds=KINDS, ops=("rate", "win", "draw", "rank")):
+    """A game accepted once and then damaged in place: the very same list object is passed again to the same model
+    (validation is per call, whatever the model has seen before)."""
+    for kind in kinds:
+        foreign_kind = rng.choice([k for k in KINDS if k != kind])
+        params, g, beta = pick_model_params(rng, kind, simple=True)
+        if params.get("tau", 1.0) == 0.0:
+            params["tau"] = beta / 50.0
+        for op in ops:
+            for damage in ["foreign_appended", "team_to_tuple", "popped_to_one", "team_emptied", "none_appended", "player_to_number"]:
+                shape = pick_shape(rng, 4, 2)
+                n = len(shape)
+                sess.reset()
+                mh = sess.model(kind, gamma=g, **params)
+                fm = sess.model(foreign_kind)
+                teams = make_teams(mh, random_vals(rng, shape, beta), rng)
+                first = rng.choice([op, op, "win", "rank"]) if op != "rate" else rng.choice(["win", "draw", "rank"])
+                sess.predict(first, mh, teams)
+                if damage == "foreign_appended":
+                    teams[rng.randrange(n)].append(fm.m.rating(20.0, 5.0))
+                elif damage == "team_to_tuple":
+                    k = rng.randrange(n)
+                    teams[k] = tuple(teams[k])
+                elif damage == "popped_to_one":
+                    del teams[1:]
+                elif damage == "team_emptied":
+                    del teams[rng.randrange(n)][:]
+                elif damage == "none_appended":
+                    teams.append(None)
+                else:
+                    teams[rng.randrange(n)][0] = 25.0
+                if op == "rate":
+                    sess.rate(mh, teams)
+                else:
+                    sess.predict(op, mh, teams)
+
+
+def saturated_tie_perms(sess, rng, prop, ops, kinds=KINDS):
+    """Three teams: a leader far ahead (beyond where the normal tail underflows) of two teams with exactly the same total
+    mu, one narrow and one wide - in all six orders.  Sorting, short cuts and early exits on the saturated pair show here."""
+    import itertools
+    for kind in kinds:
+        for gap in (16.0, 20.0, 40.0):
+            for s_small in (1e-4, 0.1):
+                for s_wide in (3.0, 10.0):
+                    params, g, beta = pick_model_params(rng, kind, simple=True)
+                    sess.reset()
+                    mh = sess.model(kind, gamma=g, **params)
+                    lo = beta * rng.choice([-20.0, -10.0, 0.0])
+                    hi = min(lo + gap * beta, 20.0 * beta)
+                    if rng.random() < 0.5:
+                        vals = [[(hi, s_small * beta)], [(lo, s_small * beta)], [(lo, s_wide * beta)]]
+                    else:       # the same totals reached by two players
+                        vals = [[(hi / 2, s_small * beta), (hi / 2, s_small * beta)], [(lo / 2, s_small * beta), (lo / 2, s_small * beta)],
+                                [(lo / 2, s_wide * beta), (lo / 2, s_small * beta)]]
+                    for op in ops:
+                        gid = GID.new(prop)
+                        sess.predict(op, mh, make_teams(mh, vals), group=gid, role="base")
+                        for tp in itertools.permutations(range(1, 4)):
+                            pv = [vals[tp[k] - 1] for k in range(3)]
+                            aux = [list(tp), [list(range(1, len(t) + 1)) for t in pv]]
+                            sess.predict(op, mh, make_teams(mh, pv), group=gid, role="perm", aux=aux)
 
 
 def api_groups(sess):
@@ -1329,6 +1441,9 @@ def league(sess, rng, kind, nplayers, games, predictions=True, twin=False, prop=
             sess.rate(mh, teams, group=gid, role="same", **kw)
         else:
             sess.rate(mh, teams, **kw)
+            if predictions and rng.random() < 0.5:
+                # the same list object again, its ratings just updated in place
+                sess.predict(rng.choice(["win", "draw", "rank"]), mh, teams)
 
 
 def leagues(sess, rng, count, nplayers, games, kinds=KINDS, **kw):
